@@ -45,9 +45,13 @@ def lens_data(optic):
            "n0": _f(optic.object_surface.material_post.n(optic.primary_wavelength)),
            "EPL": 0.0, "EPD": 0.0}
     if not c["tel"]:
+        # the paraxial entrance pupil of the lens as it is now: a fresh Paraxial object over the
+        # current prescription, not whatever helper object the Optic happens to carry
+        from optiland.paraxial import Paraxial
+        px = Paraxial(optic)
         with np.errstate(all="ignore"):
-            out["EPL"] = _f(optic.paraxial.EPL())
-            out["EPD"] = _f(optic.paraxial.EPD())
+            out["EPL"] = _f(px.EPL())
+            out["EPD"] = _f(px.EPD())
     return out
 
 
